@@ -12,8 +12,9 @@ cp /verif/.cache/facts/*.jsonl /verif/.cache/facts/*.jsonl.stamp $S/facts/ 2>/de
 cd /verif
 for pid in "$@"; do
   ASTRIA_REPO=$S/repo ASTRIA_FACTS_DIR=$S/facts VERIF_EVIDENCE_DIR=$S/evidence ./check $pid 2>&1 \
-    | grep -E "^OK|^VIOLATION|^KNOWN|FATAL|error(\[|:)|Traceback" 
-  for r in $S/evidence/replay/$pid-*.json; do [ -f "$r" ] && python3 -c "
+    | grep -E "^OK|^VIOLATION|^KNOWN|FATAL|error(\[|:)|Traceback" | awk '/^VIOLATION/{n++; if(n>2) next} {print}' 
+  ls $S/evidence/replay/$pid-*.json 2>/dev/null | wc -l | sed 's/^/    violations: /'
+  for r in $(ls $S/evidence/replay/$pid-*.json 2>/dev/null | head -4); do [ -f "$r" ] && python3 -c "
 import json,sys
 v=json.load(open(sys.argv[1])); print('   ', v.get('key'), '::', (v.get('what') or '')[:220], '@', v.get('where'))" "$r"; done
   rm -f $S/evidence/replay/$pid-*.json
